@@ -155,10 +155,16 @@ package streams
 //@   pure
 //@   ensures result == wstc.closed
 
+//@ ghost G_ws_pristine(c interface{}) bool
 //@ func NewWebsocketTunnelConnection
 //@   property C19
 //@   safe
 //@   pure
+// C01: the adapter is put on a websocket connection exactly as the dialer / upgrader returned it: no read
+// limit (a limit below header + frame size truncates uploads), nothing consumed from it yet
+//@   property C01
+//@   requires conn != nil ==> G_ws_pristine(conn)                                        :websocket_connection_as_returned_by_the_library
+//@   property C19
 //@   ensures result != nil && spec_fresh(result) && !result.closed && result.Conn == conn
 
 // ---- Named wrappers: Close/Closed are the promoted methods of the embedded Safe* wrapper
